@@ -312,7 +312,18 @@ func vkLKScenarios(thorough bool) []vkLKScenario {
 	// simplest first
 	addStd([]string{"L", "S", "LL", "SL", "LS"}, 2)
 	addCap([]string{"L", "LL"}, []string{"OK", "SF"})
+	// lookup-owned (QNAME-minimised) requests sharing one lookup
+	for _, b := range []string{"LL", "SL", "LS"} {
+		for _, t := range [][]string{{"OK", "OK"}, {"OK", "SF"}, {"SF", "OK"}, {"SF", "SF"}, {"RF", "DEAD"}} {
+			out = append(out, vkLKScenario{Cfg: "std", Budgets: b, Servers: t, Owned: true})
+		}
+	}
 	if thorough {
+		for _, b := range []string{"LLL", "SLL"} {
+			for _, t := range vkLKTuples(alpha, 2) {
+				out = append(out, vkLKScenario{Cfg: "std", Budgets: b, Servers: t, Owned: true})
+			}
+		}
 		addCap([]string{"SL", "LS"}, []string{"OK", "SF", "DEAD"})
 		addStd([]string{"L", "S", "SL", "LS"}, 3)
 		addStd([]string{"SS", "LLL", "SLL", "LSL", "LLS"}, 2)
